@@ -13,6 +13,8 @@ mod c11;
 mod c12;
 mod c13;
 mod c14;
+#[cfg(not(feature = "security"))]
+mod c15;
 mod c20;
 
 fn main() {
@@ -109,6 +111,10 @@ fn main() {
     ("C13", Some(d)) => c13::replay(&d),
     ("C14", None) => c14::run(&tier),
     ("C14", Some(d)) => c14::replay(&d),
+    #[cfg(not(feature = "security"))]
+    ("C15", None) => c15::run(&tier),
+    #[cfg(not(feature = "security"))]
+    ("C15", Some(d)) => c15::replay(&d),
     ("C20", None) => c20::run(&tier),
     ("C20", Some(d)) => c20::replay(&d),
     ("C12", Some(d)) => c12::replay(&d),
